@@ -19,54 +19,77 @@ INIT = {"dict": {"k": 0, "c": {"x": 0}}, "list": [0, {"x": 0}]}
 
 
 def alphabet(ref, task):
+    """Phases per session: enter together -> operate -> leave in every order; up to `sessions` sessions."""
     k = len(ref.obj_res)
     maxops = task["extra"]["maxops"]
+    sessions = task["extra"].get("sessions", 1)
     entered = [o for o in range(k) if ref.obj_depth[o] > 0]
+    active = bool(entered) or ref.cls_depth > 0
+    leaving = task["extra"].get("_leaving")
     ev = []
-    if ref.n_exits == 0:
-        if ref.cls_depth == 0 and not entered:
+    if not active:
+        if ref.session < sessions:
             return [("enter_cls", None), ("enter", 0)]
-        if ref.cls_depth == 0 and len(entered) < k:
-            return [("enter", len(entered))]
-        # common state reached: operations, or start leaving
-        nops = task["level"] - (1 if ref.cls_depth else k)
-        if task["extra"].get("untouched"):
-            pass
-        if nops < maxops:
-            for h in ref.attached_handles():
-                hd = ref.handles[h]
-                kind_ = ref.handle_kind(h)
-                tag = "w%d" % task["level"]
-                if not hd["path"]:
-                    ev.append(("op", h, "call", ()))
-                    if kind_ == "dict":
-                        ev.append(("op", h, "setitem", (tag, task["level"])))
-                        if task["extra"].get("rich"):
-                            ev.append(("op", h, "delitem", ("k",)))
-                    else:
-                        ev.append(("op", h, "append", (tag,)))
-                        if task["extra"].get("rich"):
-                            ev.append(("op", h, "delitem", (0,)))
-                    ev.append(("op", h, "setpath", (("c",) if kind_ == "dict" else (1,), tag, task["level"])))
-                else:
-                    ev.append(("op", h, "setitem", (tag, task["level"])))
-        if ref.cls_depth:
-            ev.append(("exit_cls",))
-        else:
-            ev += [("exit", o) for o in entered]
-        return ev
-    if entered:
+        if ref.session and task["extra"].get("post_reads", True) and not _last_was_post_read(task):
+            return [("op", h, "call", ()) for h in ref.attached_handles() if not ref.handles[h]["path"]]
+        return []
+    if ref.cls_depth == 0 and len(entered) < k and ref.ops_in_session == 0 and not _someone_left(ref, k):
+        return [("enter", len(entered))]
+    if _someone_left(ref, k):
         return [("exit", o) for o in entered]
+    # common state reached: operations, or start leaving
+    if ref.ops_in_session < maxops:
+        for h in ref.attached_handles():
+            hd = ref.handles[h]
+            kind_ = ref.handle_kind(h)
+            tag = "w%d" % task["level"]
+            if not hd["path"]:
+                ev.append(("op", h, "call", ()))
+                if kind_ == "dict":
+                    ev.append(("op", h, "setitem", (tag, task["level"])))
+                    ev.append(("op", h, "setpath", (("c",), tag, task["level"])))
+                    if task["extra"].get("rich"):
+                        ev.append(("op", h, "delitem", ("k",)))
+                        ev.append(("op", h, "reset", ({tag: task["level"]},)))
+                        ev.append(("op", h, "clear", ()))
+                else:
+                    ev.append(("op", h, "append", (tag,)))
+                    ev.append(("op", h, "setpath", ((1,), tag, task["level"])))
+                    if task["extra"].get("rich"):
+                        ev.append(("op", h, "delitem", (0,)))
+                        ev.append(("op", h, "reset", ([tag],)))
+                        ev.append(("op", h, "clear", ()))
+            else:
+                ev.append(("op", h, "setitem", (tag, task["level"])))
     if ref.cls_depth:
-        return []
-    # everything left: one round of reads through every object
-    if not task["extra"].get("post_reads", True):
-        return []
-    last_was_read = False
-    return [("op", h, "call", ()) for h in ref.attached_handles() if not ref.handles[h]["path"]] if task["level"] < task["depth"] else []
+        ev.append(("exit_cls",))
+    else:
+        ev += [("exit", o) for o in entered]
+    return ev
+
+
+def _someone_left(ref, k):
+    """per-object mode: some object already left this session (then only exits follow)"""
+    if ref.cls_depth:
+        return False
+    entered = sum(1 for o in range(k) if ref.obj_depth[o] > 0)
+    return 0 < entered < k and ref.ops_in_session > 0 or (0 < entered < k and ref.n_exits > 0 and _exits_this_session(ref))
+
+
+def _exits_this_session(ref):
+    return getattr(ref, "_c06_exit_marker", None) == ref.session
+
+
+def _last_was_post_read(task):
+    return task["level"] >= task["depth"]
 
 
 class Hooks:
+    def after_event(self, run, ev, outcome, exp, info, last):
+        if ev[0] == "exit":
+            run.ref._c06_exit_marker = run.ref.session
+        return []
+
     def probe(self, run):
         out = []
         ref, world = run.ref, run.world
@@ -95,20 +118,24 @@ def plan(tier, seed):
         for c in env.JSON_FAMILIES[fam]:
             kind_ = env.kind_of(c)
             nav = (lambda o: ("nav", o, "c")) if kind_ == "dict" else (lambda o: ("nav", o, 1))
-            variants = [(2, 4 if tier == "quick" else 5)]
+            variants = [(2, 3 if tier == "quick" else 5, 1)]
             if tier != "quick" and fam in ("Buffered", "MemoryBuffered"):
-                variants.append((3, 4))
-            variants = [(k, m, ch) for k, m in variants for ch in (False, True)]
-            for k, maxops, childhandles in variants:
+                variants.append((3, 4, 1))
+            variants.append((2, 2, 2))  # two successive common sessions, 2 operations each
+            if tier != "quick":
+                variants.append((2, 3, 2))
+            variants = [(k, m, ns, ch) for k, m, ns in variants for ch in (False, True)]
+            for k, maxops, nsess, childhandles in variants:
                 # childhandles: every object also retains a nested child obtained BEFORE the contexts
                 cfg = seq.Config(c, initial=(INIT[kind_],), objects=(0,) * k,
                                  prefix=tuple(nav(o) for o in range(k)) if childhandles else
                                  tuple(("op", o, "len", ()) for o in range(k)),
-                                 label="%s/%dobj%s" % (c, k, "/childhandles" if childhandles else ""))
-                depth = k + maxops + k + 1
-                kw = dict(label="%s/ops%d" % (cfg.label, maxops), cfg=cfg, alphabet="alphabet", depth=depth,
+                                 label="%s/%dobj%s" % (c, k, "/childhandles" if childhandles else ""),
+                                 options={"track_sessions": True})
+                depth = (k + maxops + k) * nsess + 1
+                kw = dict(label="%s/ops%d/sess%d" % (cfg.label, maxops, nsess), cfg=cfg, alphabet="alphabet", depth=depth,
                           oracles={"result", "resource", "nowrite", "ctxerr"}, hooks="probe",
-                          extra={"maxops": maxops, "rich": tier != "quick" or True, "depth": depth})
+                          extra={"maxops": maxops, "rich": nsess == 1, "depth": depth, "sessions": nsess})
                 kw["extra"]["depth"] = depth
                 t = seqcheck.split(2, **kw)
                 for x in t:
